@@ -12,6 +12,12 @@ open DendroModel DendroModel.C01
 theorem pyAnd_comm (a b : Int) : pyAnd a b = pyAnd b a := by
   cases a <;> cases b <;> simp [pyAnd, Nat.and_comm, Nat.or_comm]
 
+/-- `(b & f) ^ f` is `~b & f` (complement within the fill), for all Python ints -/
+theorem pyXor_and_self (b f : Int) : pyXor (pyAnd b f) f = pyAnd (pyNot b) f := by
+  rcases b with b | b <;> rcases f with f | f <;> simp only [pyAnd, pyXor, pyNot, natDiff] <;> congr 1 <;>
+    (apply Nat.eq_of_testBit_eq; intro i; simp only [Nat.testBit_xor, Nat.testBit_and, Nat.testBit_or]
+     cases b.testBit i <;> cases f.testBit i <;> rfl)
+
 theorem pyAnd_ofNat (a b : Nat) : pyAnd (a : Int) (b : Int) = ((a &&& b : Nat) : Int) := rfl
 theorem pyOr_ofNat (a b : Nat) : pyOr (a : Int) (b : Int) = ((a ||| b : Nat) : Int) := rfl
 
@@ -150,7 +156,7 @@ theorem k_normalize_lsb1 (b f lo : Int) : C01Kernels.normalize_lsb1 b f lo = nor
 
 /-- the instance method `normalize(…, "lsb0")` and the static `normalize_bitmask` are the same function -/
 theorem k_normalize_lsb0_static (b f lo : Int) : C01Kernels.normalize_lsb0 b f lo = PyBits.normalize_bitmask b f lo := by
-  simp [C01Kernels.normalize_lsb0, PyBits.normalize_bitmask, pyAnd_comm lo b]
+  by_cases h : pyAnd b lo = 0 <;> simp [C01Kernels.normalize_lsb0, PyBits.normalize_bitmask, pyAnd_comm lo b, h, pyXor_and_self]
 
 theorem k_compile_split (r : Bool) (L m : Nat) :
     splitOf r L m = C01Kernels.compile_split r (m : Int) (L : Int) (lsbOf L) := by
